@@ -27,6 +27,18 @@ def src(node):
         return ast.dump(node)
 
 
+def canon_eq(a, b, op="=="):
+    """Text of `a == b` (or `!=`) in the spelling sa/normal.py produces: constant on the right, otherwise ordered by text."""
+    import re as _re
+    ca = bool(_re.fullmatch(r"-?[0-9.]+|'[^']*'|\"[^\"]*\"|None|True|False", a))
+    cb = bool(_re.fullmatch(r"-?[0-9.]+|'[^']*'|\"[^\"]*\"|None|True|False", b))
+    if ca and not cb:
+        a, b = b, a
+    elif not ca and not cb and a > b:
+        a, b = b, a
+    return "%s %s %s" % (a, op, b)
+
+
 def short(node, n=110):
     s = " ".join(src(node).split())
     return s if len(s) <= n else s[:n - 3] + "..."
@@ -210,6 +222,14 @@ class Module:
             self.tree = ast.parse(text, filename=relpath, type_comments=False)
         except SyntaxError as e:
             raise AnalysisError("parse error in %s: %s" % (relpath, e))
+        # locals renamed by a refactoring are renamed back to the names the rules know (sa/alpha.py)
+        self.alpha_renamed = 0
+        if os.environ.get("SA_NO_ALPHA") != "1":
+            from sa import alpha
+            self.alpha_renamed = alpha.normalise_module(self.tree, relpath)
+        if os.environ.get("SA_NO_NORMAL") != "1":
+            from sa import normal
+            normal.normalise(self.tree)
         self.name = relpath[:-3].replace("/", ".")
         if self.name.endswith(".__init__"):
             self.name = self.name[:-9]
